@@ -387,6 +387,11 @@ func c16HashFamily(c *lib.Ctx) {
 			hists = append(hists, c16Hist{make: c16MakeForms[(i+j)%len(c16MakeForms)], keys: keys, ops: script, sweep: true, cell: kn[i] + "/" + kn[j]})
 		}
 	}
+	// second script per key: removal before any store, double removal
+	for i := range kw {
+		hists = append(hists, c16Hist{make: c16MakeForms[i%len(c16MakeForms)], keys: []string{kw[i]},
+			ops: []string{"r0", "g0", "n", "p0,1", "r0", "r0", "g0", "n", "m", "p0,2", "p0,3", "g0", "n"}, sweep: true, cell: kn[i] + "/remove-first"})
+	}
 	nSweep := len(hists)
 	// --- composite: random histories (<= 12 ops) over 2..6 keys of every hashable kind; key kinds
 	// with a listed finding are not used
